@@ -278,7 +278,7 @@ VARIANTS += [
     V("twin-fit-rename-weights", ["C06", "C14", "C05"], C, "            weights = np.dot(transmat, oldweights)\n            numerators = np.dot(transmat, numerators)\n            ctrlpoints = [invert(wei) * num for num, wei in zip(numerators, weights)]\n            self.weights = weights\n", "            newweights = np.dot(transmat, oldweights)\n            numerators = np.dot(transmat, numerators)\n            ctrlpoints = [invert(wei) * num for num, wei in zip(numerators, newweights)]\n            self.weights = newweights\n", None, None, "weights renamed consistently", twin=True),
     V("split-old-weights", ["C07"], C, "                    invert(w) * num for num, w in zip(numerators, newweights)\n", "                    invert(w) * num for num, w in zip(numerators, self.weights)\n", "DEHOMOG-PAIR", "Curve.split", "pieces divided by the weights of the whole curve"),
     V("twin-split-ifexp", ["C07"], C, "        if nodes is None:\n            nodes = self.knotvector.knots\n        nodes = tuple(nodes)\n        newvectors = self.knotvector.split(nodes)", "        nodes = self.knotvector.knots if nodes is None else nodes\n        nodes = tuple(nodes)\n        newvectors = self.knotvector.split(nodes)", None, None, "default substituted by a conditional expression", twin=True),
-    V("clean-nodes-truthiness", ["C14"], C, "        if nodes is None:\n            nodes = self.knotvector.knots\n        nodes = tuple(set(nodes) - set(self.knotvector.limits))", "        if not nodes:\n            nodes = self.knotvector.knots\n        nodes = tuple(set(nodes) - set(self.knotvector.limits))", "NONE-DEFAULT", "knot_clean", "empty node list cleans every knot"),
+    V("clean-nodes-truthiness", ["C14"], C, "        if nodes is None:\n            nodes = self.knotvector.knots\n        nodes = tuple(nodes)\n        for node in nodes:\n", "        if not nodes:\n            nodes = self.knotvector.knots\n        nodes = tuple(nodes)\n        for node in nodes:\n", "NONE-DEFAULT", "knot_clean", "empty node list cleans every knot"),
     V("twin-eval-list", ["C01"], C, "        try:\n            nodes = tuple(nodes)\n            onevalue = False", "        try:\n            nodes = list(nodes)\n            onevalue = False", None, None, "materialised as a list", twin=True),
     V("twin-nodes-tuple-first", ["C12"], H, "        assert len(nodes) >= npts\n        if weights is None:\n            funcvals = eval_spline_nodes(knotvector, nodes, degree)", "        nodes = tuple(nodes)\n        assert len(nodes) >= npts\n        if weights is None:\n            funcvals = eval_spline_nodes(knotvector, nodes, degree)", None, None, "nodes copied into a tuple, order kept", twin=True),
     V("twin-and-front-slice", ["C17"], H, "        all_knots = tuple(sorted(set(self.knots) & set(other.knots)))", "        knotsa = set(self[self.degree : len(self) - self.degree])\n        knotsb = set(other[other.degree : len(other) - other.degree])\n        all_knots = tuple(sorted(knotsa & knotsb))", None, None, "inner knots sliced from the front", twin=True),
